@@ -46,10 +46,10 @@ func scenarioList(cfg vlib.Cfg) []Scenario {
 			id++
 		}
 	}
-	add(cfg.N(56, 480), "subs", genSubs)
-	add(cfg.N(220, 1500), "pair", genPair)
-	add(cfg.N(24, 96), "shared", genShared)
-	add(cfg.N(56, 480), "hooks", genHooks)
+	add(cfg.N(400, 4000), "subs", genSubs)
+	add(cfg.N(300, 3000), "pair", genPair)
+	add(cfg.N(32, 200), "shared", genShared)
+	add(cfg.N(200, 2400), "hooks", genHooks)
 	return out
 }
 
@@ -113,13 +113,13 @@ func main() {
 			j++
 		}
 		bs := batchSpec{Kind: "plain", Scenarios: scs[i:j], Repeat: repeat}
-		specs = append(specs, vlib.ChildSpec{Name: fmt.Sprintf("plain-%03d-%s", nb, scs[i].Class), Bin: cfg.BinPlain, Spec: bs, Timeout: 10 * time.Minute})
+		specs = append(specs, vlib.ChildSpec{Name: fmt.Sprintf("plain-%03d-%s", nb, scs[i].Class), Bin: cfg.BinPlain, Spec: bs, Timeout: 5 * time.Minute})
 		bspecs = append(bspecs, bs)
 		// the race build repeats every second batch in the quick tier, all in thorough
 		if cfg.BinRace != "" && (cfg.Thorough() || nb%2 == 0 || cfg.Replay != "") {
 			rs := bs
 			rs.Kind = "race"
-			specs = append(specs, vlib.ChildSpec{Name: fmt.Sprintf("race-%03d-%s", nb, scs[i].Class), Bin: cfg.BinRace, Spec: rs, Timeout: 20 * time.Minute, Race: true})
+			specs = append(specs, vlib.ChildSpec{Name: fmt.Sprintf("race-%03d-%s", nb, scs[i].Class), Bin: cfg.BinRace, Spec: rs, Timeout: 10 * time.Minute, Race: true})
 			bspecs = append(bspecs, rs)
 		}
 		nb++
@@ -183,11 +183,13 @@ func main() {
 			rep.Floor(rep.Counter(key) >= want, "%s=%d (< %d)", key, rep.Counter(key), want)
 		}
 		floor("deliveries", 10000, 100000)
-		floor("mandatory_deliveries", 5000, 50000)
+		floor("mandatory_deliveries", 8000, 80000)
 		floor("cancels_overlapping_writer", 100, 800)
 		floor("pair_plans_completed", 150, 1000)
 		floor("hook_calls_mandatory", 2000, 20000)
 		floor("vetoed_ops", 50, 500)
+		floor("replacements_postget", 10, 100)
+		floor("replacements_preput", 10, 100)
 	}
 	rep.Assume("a write is 'successful' iff the interface call returned nil; the record a re-put (Delete, MakeSecret, InsertValue, ...) delivers is the one the same writer last put on that key (writers own their keys and use one interface each)")
 	rep.Assume("Interface.PutMany and interfaces with DelayCachedWrites are documented to bypass subscriptions and are not part of the workload")
